@@ -604,6 +604,21 @@ pub fn c16_eval_frag(case: &FragCase, st: &mut RunStats) -> Vec<Violation> {
                                 out.push(v("C16", "parameter-set-length", "init:set-over-65535-bytes", format!("init segment ({} byte sample entry) emitted although a parameter set of {:?} bytes does not fit its 16-bit length field", entry.len(), want)));
                                 return out;
                             }
+                            // ... and the length fields that are written must tile the record, whatever form the sets were
+                            // given in (with or without a start code, trailing zeros)
+                            let kids = crate::oracle::child_boxes(entry, 78);
+                            if let Some((_, c)) = kids.iter().find(|(t, _)| t == b"avcC") {
+                                if !crate::oracle::avcc_tiles(c) {
+                                    out.push(v("C16", "parameter-set-length", "init:avcC:does-not-tile", format!("init segment avcC ({} bytes): the declared SPS/PPS lengths do not add up to the record (sets given: {:?} bytes)", c.len(), want)));
+                                    return out;
+                                }
+                            }
+                            if let Some((_, c)) = kids.iter().find(|(t, _)| t == b"hvcC") {
+                                if !crate::oracle::hvcc_tiles(c) {
+                                    out.push(v("C16", "parameter-set-length", "init:hvcC:does-not-tile", format!("init segment hvcC ({} bytes): the declared parameter-set lengths do not add up to the record (sets given: {:?} bytes)", c.len(), want)));
+                                    return out;
+                                }
+                            }
                         }
                     }
                 }
